@@ -1,4 +1,155 @@
+(* C11/Properties.v — the property theorems only.  Each is closed by [exact] of a lemma from Proofs.v (or by
+   [vm_compute] on a concrete witness for the _refuted / _nonvacuous statements) and followed by Print Assumptions.
+
+   [repaired] is the behaviour for which the property holds; [defective] is what /repo does today
+   (see notes/C11.md and KNOWN_FINDINGS.txt). *)
 From OV Require Import Common.Base C11.Model C11.Proofs.
-Theorem C11_push_cap : forall b q, r_cap (push b q) = r_cap b.
-Proof. exact push_cap. Qed.
-Print Assumptions C11_push_cap.
+
+(* ------------------------------------------------------------------ backlog *)
+(* A ring of any capacity, filled by any number of pushes of consecutive uint64 sequence numbers (wrapped any
+   number of times), answers Range(from,to) for EVERY pair of uint64 bounds with exactly the retained entries
+   (the last [cap] pushed) whose sequence number lies in [from,to], oldest first — empty, inverted and
+   far-away ranges included. *)
+Theorem C11_backlog_range :
+  forall cap qs first from to,
+  (0 < cap <= max_make)%Z -> consec first qs -> (0 <= first)%Z -> (first + Z.of_nat (length qs) <= two64)%Z ->
+  (0 <= from < two64)%Z -> (0 <= to < two64)%Z ->
+  range repaired (fold_left push qs (new_ring cap)) from to =
+  Ok (map Some (filter (in_range from to) (skipn (length qs - Z.to_nat cap) qs))).
+Proof. exact backlog_range_repaired. Qed.
+Print Assumptions C11_backlog_range.
+
+(* The Range of today's code is exact as long as every sequence number and bound is below 2^63. *)
+Theorem C11_backlog_range_today :
+  forall cap qs first from to,
+  (0 < cap <= max_make)%Z -> consec first qs -> (1 <= first)%Z -> (first + Z.of_nat (length qs) <= two63)%Z ->
+  (0 <= from < two63)%Z -> (0 <= to < two63)%Z ->
+  range defective (fold_left push qs (new_ring cap)) from to =
+  Ok (map Some (filter (in_range from to) (skipn (length qs - Z.to_nat cap) qs))).
+Proof. exact backlog_range_today. Qed.
+Print Assumptions C11_backlog_range_today.
+
+(* ... and wrong above: an entry outside the requested range is returned (capacity 4) *)
+Definition ex_sess (sid : N) (v4 : option N) (pool : N) : session :=
+  mksession KIPoE sid 1 2199023255553 100 7 1 v4 pool None 0 None 0 0 None None 0 3600.
+Definition ex_q (seq : N) (rel : bool) (s : session) : req := mkreq 1 seq (act_of rel) (s2c s).
+Definition ex_qs3 : list req :=
+  reqs_from 1 0 [(ex_sess 1 None 0, false); (ex_sess 2 None 0, false); (ex_sess 3 None 0, false)].
+
+Theorem C11_backlog_huge_seq_refuted :
+  exists cap qs from to q,
+    consec 1 qs /\ (0 <= from < two64)%Z /\ (0 <= to < two64)%Z /\
+    range defective (fold_left push qs (new_ring cap)) from to = Ok [Some q] /\ in_range from to q = false.
+Proof.
+  exists 4%Z, ex_qs3, (two63 + 1)%Z, (two63 + 1)%Z, (ex_q 1 false (ex_sess 1 None 0)).
+  split; [exact (reqs_from_consec 1 0 _)|]. split; [vm_compute; split; [discriminate|reflexivity]|].
+  split; [vm_compute; split; [discriminate|reflexivity]|]. split; vm_compute; reflexivity.
+Qed.
+Print Assumptions C11_backlog_huge_seq_refuted.
+
+(* ... or the call panics on a negative index (capacity 5) *)
+Theorem C11_backlog_huge_seq_panic_refuted :
+  exists cap qs from to,
+    consec 1 qs /\ (0 <= from < two64)%Z /\ (0 <= to < two64)%Z /\
+    range defective (fold_left push qs (new_ring cap)) from to = Panic.
+Proof.
+  exists 5%Z, ex_qs3, (two63 + 1)%Z, (two63 + 1)%Z.
+  split; [exact (reqs_from_consec 1 0 _)|]. split; [vm_compute; split; [discriminate|reflexivity]|].
+  split; [vm_compute; split; [discriminate|reflexivity]|]. vm_compute; reflexivity.
+Qed.
+Print Assumptions C11_backlog_huge_seq_panic_refuted.
+
+(* The active node's backlog after any history of lifecycle events of an SRG: the counter equals the number
+   of events and Range returns exactly the retained updates of the requested range. *)
+Theorem C11_sender_backlog_exact :
+  forall cap g evs from to,
+  g <> 0%N -> (forall e, In e evs -> s_srg (fst e) = g) -> (N.of_nat (length evs) < n64)%N ->
+  (0 < cap <= max_make)%Z -> (0 <= from < two64)%Z -> (0 <= to < two64)%Z ->
+  exists seq b, aget N.eqb g (fst (sender_run [(g, (0%N, new_ring cap))] evs)) = Some (seq, b) /\
+    seq = N.of_nat (length evs) /\
+    range repaired b from to =
+      Ok (map Some (filter (in_range from to)
+            (skipn (length evs - Z.to_nat cap) (snd (sender_run [(g, (0%N, new_ring cap))] evs))))).
+Proof. exact sender_backlog_exact. Qed.
+Print Assumptions C11_sender_backlog_exact.
+
+Example C11_backlog_range_nonvacuous :
+  (* capacity 2, three pushes: the ring has wrapped, seq 1 is gone, Range(0,2) = [2], Range(3,9) = [3], Range(3,2) = [] *)
+  let b := fold_left push ex_qs3 (new_ring 2) in
+  consec 1 ex_qs3 /\
+  option_map (map (option_map q_seq)) (match range repaired b 0 2 with Ok l => Some l | _ => None end) = Some [Some 2%N] /\
+  option_map (map (option_map q_seq)) (match range repaired b 3 9 with Ok l => Some l | _ => None end) = Some [Some 3%N] /\
+  range repaired b 3 2 = Ok [] /\ oldest_seq b = Ok 2%N /\ newest_seq b = Ok 3%N.
+Proof. split; [exact (reqs_from_consec 1 0 _)|]. vm_compute. repeat split; reflexivity. Qed.
+Print Assumptions C11_backlog_range_nonvacuous.
+
+(* ------------------------------------------------------------------ identity and addressing *)
+(* The checkpoint of a session carries its identity (id, SRG, MAC, VLANs, user) and, for IPoE/PPPoE, exactly its
+   IPv4 address, IANA address and delegated prefix (network address of addr/len, as ParseCIDR returns it) *)
+Theorem C11_checkpoint_identity :
+  forall s, let c := s2c s in
+  c_sid c = s_sid s /\ c_srg c = s_srg s /\ c_mac c = s_mac s /\ c_ov c = s_ov s /\ c_iv c = s_iv s /\
+  c_user c = s_user s /\ cp_key c = sess_key s /\
+  (s_kind s <> KL2GW ->
+     c_v4 c = s_v4 s /\ c_v6 c = s_v6 s /\ c_v4pool c = s_v4pool s /\ c_napool c = s_napool s /\ c_vrf c = s_vrf s /\
+     c_pd c = match s_pd s with Some p => parse_cidr p | None => None end) /\
+  (s_kind s = KL2GW -> c_v4 c = None /\ c_v6 c = None /\ c_pd c = None).
+Proof. exact checkpoint_identity. Qed.
+Print Assumptions C11_checkpoint_identity.
+
+(* ------------------------------------------------------------------ convergence of the store *)
+(* After ANY history of create/update/release events of an SRG on the active node and ANY delivery of the
+   resulting stream that is in order with arbitrary redelivery of earlier messages, the (repaired) standby's
+   replicated store is exactly the checkpoints of the sessions live on the active node, and its last sequence
+   number is the sender's. *)
+Theorem C11_converges :
+  forall g0 cap g evs d,
+  g <> 0%N -> (forall e, In e evs -> s_srg (fst e) = g) -> (N.of_nat (length evs) < n64)%N ->
+  let reqs := snd (sender_run [(g, (0%N, new_ring cap))] evs) in
+  delivery reqs 0 d (length reqs) ->
+  rc_store (recv_run repaired (mkrecv [] [] g0) d) = expected_store (live_run evs) /\
+  last_of (recv_run repaired (mkrecv [] [] g0) d) g = N.of_nat (length evs).
+Proof. exact converges_store. Qed.
+Print Assumptions C11_converges.
+
+Definition ex_reg : registry :=
+  mkreg [(1, mk_pool 167772161 167772172 [167772161]); (3, mk_pool 167772161 167772172 [167772161])]%N
+        [(1, mk_pool 42540766411282592856903984951653826561 42540766411282592856903984951653826570 [])]%N
+        [(1, mk_pd 42540766411592077866725330020378607616 48 56)]%N.
+Definition ex_a : N := 167772165.
+Definition ex_b : N := 167772166.
+
+(* today: create, release, then the create delivered once more — the session is back on the standby *)
+Theorem C11_converges_today_refuted :
+  exists g0 cap g evs d,
+  g <> 0%N /\ (forall e, In e evs -> s_srg (fst e) = g) /\
+  delivery (snd (sender_run [(g, (0%N, new_ring cap))] evs)) 0 d (length (snd (sender_run [(g, (0%N, new_ring cap))] evs))) /\
+  live_run evs = [] /\
+  rc_store (recv_run defective (mkrecv [] [] g0) d) <> expected_store (live_run evs) /\
+  leases_of (rc_reg (recv_run defective (mkrecv [] [] g0) d)) <> [].
+Proof.
+  exists ex_reg, 8%Z, 1%N, [(ex_sess 1 (Some ex_a) 1, false); (ex_sess 1 (Some ex_a) 1, true)],
+         [ex_q 1 false (ex_sess 1 (Some ex_a) 1); ex_q 2 true (ex_sess 1 (Some ex_a) 1); ex_q 1 false (ex_sess 1 (Some ex_a) 1)].
+  split; [discriminate|]. split; [intros e [<-|[<-|[]]]; reflexivity|]. split.
+  - eapply dl_next; [reflexivity|]. eapply dl_next; [reflexivity|].
+    eapply (dl_dup _ 2 0); [lia|reflexivity|]. apply dl_nil.
+  - split; [reflexivity|]. split; vm_compute; discriminate.
+Qed.
+Print Assumptions C11_converges_today_refuted.
+
+Example C11_converges_nonvacuous :
+  (* the same history and delivery: the hypotheses of C11_converges hold and the repaired standby ends empty;
+     with the release left out it ends with exactly the session's checkpoint *)
+  let s := ex_sess 1 (Some ex_a) 1 in
+  delivery (snd (sender_run [(1%N, (0%N, new_ring 8))] [(s, false); (s, true)])) 0
+           [ex_q 1 false s; ex_q 2 true s; ex_q 1 false s] 2 /\
+  rc_store (recv_run repaired (mkrecv [] [] ex_reg) [ex_q 1 false s; ex_q 2 true s; ex_q 1 false s]) = [] /\
+  rc_store (recv_run repaired (mkrecv [] [] ex_reg) [ex_q 1 false s; ex_q 1 false s]) = [((1, 1)%N, s2c s)] /\
+  leases_of (rc_reg (recv_run repaired (mkrecv [] [] ex_reg) [ex_q 1 false s; ex_q 1 false s])) = [((4, 1, ex_a)%N, 1%N)].
+Proof.
+  cbv zeta. split.
+  - eapply dl_next; [reflexivity|]. eapply dl_next; [reflexivity|].
+    eapply (dl_dup _ 2 0); [lia|reflexivity|]. apply dl_nil.
+  - vm_compute. repeat split; reflexivity.
+Qed.
+Print Assumptions C11_converges_nonvacuous.
